@@ -118,6 +118,13 @@ def run(prog: Program, res: Result) -> None:
                             f"`{norm(n, 70)}` submits a callable that draws from the global RNG ({draws[0]}) with no per-submission "
                             f"argument: with the fork start method every worker process replays the same stream and the initial "
                             f"population contains exact duplicates"))
+    # serial and pooled creation agree on the number of agents (shared obligation with C10)
+    from .c10 import check_generate_agents
+    _n, issues = check_generate_agents(prog)
+    res.ob(not issues, "_generate_agents: serial and pooled branches both yield one agent per element of range(0, n_agents)", "generate_agents-agree")
+    for (node, msg) in issues:
+        res.add(Finding(P, "C11.R1-same-count-as-serial", construct_key(prog, node, prog.modules[f"{PKG}.abstract"]),
+                        f"pyvolutionary/abstract.py:{node.lineno}", msg))
     # ------------------------------------------------------------------ get_pool_results
     gp = prog.func(f"{PKG}.helpers.get_pool_results")
     fors = [n for n in own_nodes(gp) if isinstance(n, ast.For)]
